@@ -124,6 +124,15 @@ func (x *Exec) jsonEmpty(v Value) bool {
 // jsonConvert models "marshal a value of type st, unmarshal the text into a value of type dt" for two different
 // struct types: members are matched by their JSON names (case-sensitively), omitempty members that are empty are
 // not transmitted, members unknown to the target are ignored. Everything else must have identical types.
+func isByteSlice(t types.Type) bool {
+	sl, ok := t.Underlying().(*types.Slice)
+	if !ok {
+		return false
+	}
+	b, ok := sl.Elem().Underlying().(*types.Basic)
+	return ok && b.Kind() == types.Uint8
+}
+
 func isRawMessage(t types.Type) bool {
 	n, ok := t.(*types.Named)
 	return ok && n.Obj().Pkg() != nil && n.Obj().Pkg().Path() == "encoding/json" && n.Obj().Name() == "RawMessage"
@@ -328,6 +337,15 @@ func (x *Exec) jsonConvert0(v Value, st, dt types.Type, fold bool) (Value, bool)
 			}
 			return obj.Val, true
 		}
+	}
+	// a []byte that is not a RawMessage travels as a base64 string: it decodes back into []byte only; read as raw JSON
+	// it is a JSON string, not the document the bytes may have held
+	if isByteSlice(st) && !isRawMessage(st) {
+		if isByteSlice(dt) && !isRawMessage(dt) {
+			return x.deepCopyJSON(v), true
+		}
+		enc := x.newToken("enc:base64", v)
+		return x.jsonConvert(enc, types.Typ[types.String], dt, fold)
 	}
 	// slices element by element
 	if ssl, ok := st.Underlying().(*types.Slice); ok {
